@@ -44,6 +44,7 @@ class Foreign(Engine):
                   'existing_archive': rng.random() < 0.5,
                   # the source of a creating call may itself fail part-way (a fault of the caller's iterable)
                   'source_fails': rng.random() < 0.3}
+        action['emptymeta'] = rng.random() < 0.4     # drawn last: earlier draws keep their meaning
         return {'engine': 'Foreign', 'prop': 'C16', 'occupant': occ, 'ops': ops, 'action': action}
 
     def simplify(self, sc):
@@ -89,6 +90,47 @@ class Foreign(Engine):
             emit({'violation': v.oracle + ':' + v.signature})
         st['transitions'] = sorted(st['transitions'])
         return {'violation': viol, 'stats': st}
+
+    @staticmethod
+    def _newmeta(a):
+        return {'n': 2} if a['newmeta'] else ({} if a.get('emptymeta') else None)
+
+    def _create(self, darr, act, a, tpath, src, overwrite, source_fails):
+        md = self._newmeta(a)
+        if act == 'asarray':
+            src_arr = np.arange(a['rows'] * 3, dtype='<i2').reshape(a['rows'], 3)
+            if source_fails:
+                def failing():
+                    yield np.arange(6, dtype='<i2').reshape(2, 3)
+                    yield np.arange(3, dtype='<i2').reshape(1, 3)
+                    raise RuntimeError('source failed (injected)')
+                src_arr = failing()
+            darr.asarray(tpath, src_arr, overwrite=overwrite, metadata=md)
+        elif act == 'create_array':
+            ff = None
+            if source_fails:
+                calls = []
+
+                def ff(i):
+                    calls.append(1)
+                    if len(calls) > 1:
+                        raise RuntimeError('fillfunc failed (injected)')
+                    return i
+            darr.create_array(tpath, shape=(max(a['rows'], 9), 2), dtype='float32', chunklen=4, overwrite=overwrite,
+                              fillfunc=ff, metadata=md)
+        elif act == 'asraggedarray':
+            items = [np.arange(k + 1.) for k in range(a['rows'] + 1)]
+            if source_fails:
+                def failing_items():
+                    yield np.arange(2.)
+                    yield np.arange(3.)
+                    raise RuntimeError('source failed (injected)')
+                items = failing_items()
+            darr.asraggedarray(tpath, items, overwrite=overwrite, metadata=md)
+        elif act == 'create_raggedarray':
+            darr.create_raggedarray(tpath, atom=(2,), dtype='int16', overwrite=overwrite, metadata=md)
+        elif act in ('copy', 'ragged_copy'):
+            src.copy(tpath, overwrite=overwrite)
 
     def _run(self, darr, sc, sb, emit, st):
         parent = os.path.join(sb, 'p')
@@ -201,44 +243,10 @@ class Foreign(Engine):
                 darr.delete_array(stale)
             elif act == 'delete_stale_ragged':
                 darr.delete_raggedarray(stale)
-            elif act == 'asarray':
-                src_arr = np.arange(a['rows'] * 3, dtype='<i2').reshape(a['rows'], 3)
-                if a.get('source_fails'):
-                    def failing():
-                        yield np.arange(6, dtype='<i2').reshape(2, 3)
-                        yield np.arange(3, dtype='<i2').reshape(1, 3)
-                        raise RuntimeError('source failed (injected)')
-                    src_arr = failing()
+            elif act in CREATORS and act != 'archive':
+                if a.get('source_fails') and act in ('asarray', 'create_array', 'asraggedarray'):
                     st['probes']['creator_source_failed'] = 1
-                darr.asarray(tpath, src_arr, overwrite=a['overwrite'], metadata={'n': 2} if a['newmeta'] else None)
-            elif act == 'create_array':
-                ff = None
-                if a.get('source_fails'):
-                    calls = []
-
-                    def ff(i):
-                        calls.append(1)
-                        if len(calls) > 1:
-                            raise RuntimeError('fillfunc failed (injected)')
-                        return i
-                    st['probes']['creator_source_failed'] = 1
-                darr.create_array(tpath, shape=(max(a['rows'], 9), 2), dtype='float32', chunklen=4, overwrite=a['overwrite'],
-                                  fillfunc=ff, metadata={'n': 2} if a['newmeta'] else None)
-            elif act == 'asraggedarray':
-                items = [np.arange(k + 1.) for k in range(a['rows'] + 1)]
-                if a.get('source_fails'):
-                    def failing_items():
-                        yield np.arange(2.)
-                        yield np.arange(3.)
-                        raise RuntimeError('source failed (injected)')
-                    items = failing_items()
-                    st['probes']['creator_source_failed'] = 1
-                darr.asraggedarray(tpath, items, overwrite=a['overwrite'], metadata={'n': 2} if a['newmeta'] else None)
-            elif act == 'create_raggedarray':
-                darr.create_raggedarray(tpath, atom=(2,), dtype='int16', overwrite=a['overwrite'],
-                                        metadata={'n': 2} if a['newmeta'] else None)
-            elif act in ('copy', 'ragged_copy'):
-                src.copy(tpath, overwrite=a['overwrite'])
+                self._create(darr, act, a, tpath, src, a['overwrite'], a.get('source_fails'))
             elif act == 'archive':
                 if src is None:
                     st['probes']['archive_without_array'] = 1
@@ -320,6 +328,34 @@ class Foreign(Engine):
                     raise Viol('foreign.create', f'{tag}:raises_on_free_path:{type(exc).__name__}', str(exc)[:200])
             else:
                 st['probes']['create_overwrite_on_' + occ] = 1
+                if exc is None:
+                    # "with overwrite=True they replace ... Darr's own files": whatever the previous occupant was, the
+                    # files Darr owns at the target are those the same call writes on a free path of the same name
+                    fresh_parent = os.path.join(sb, 'fresh')
+                    os.makedirs(fresh_parent)
+                    fresh = os.path.join(fresh_parent, 't.darr')
+                    self._create(darr, act, a, pathlib.Path(fresh) if form == 'Path' else fresh, src, False, False)
+                    fsnap = snapshot(fresh)
+                    tsnap = snapshot(target)
+                    own = ('arrayvalues.bin', 'arraydescription.json', 'README.txt', 'metadata.json')
+                    names = set(own)
+                    if act in ('asraggedarray', 'create_raggedarray', 'ragged_copy'):
+                        names.update(f'{sub}/{n}' for sub in ('values', 'indices') for n in own[:3])
+                    for n in sorted(names):
+                        if os.path.join('t.darr', n) in foreign:
+                            continue
+                        if n in fsnap and n not in tsnap:
+                            raise Viol('foreign.overwrite', f'{tag}:own_file_missing:{os.path.basename(n)}', n)
+                        if n not in fsnap and n in tsnap and n != 'metadata.json':
+                            # files of a previous occupant of the *other* kind (an Array's arrayvalues.bin under a new
+                            # ragged array): whether overwrite owes their removal is not stated; counted, not judged
+                            st['probes']['cross_kind_leftover_after_overwrite'] = 1
+                            continue
+                        if n not in fsnap and n in tsnap:
+                            raise Viol('foreign.overwrite', f'{tag}:stale_own_file_of_previous_occupant:{os.path.basename(n)}', n)
+                        if n in fsnap and fsnap[n][0] == 'file' and (tsnap[n][0] != 'file' or tsnap[n][2] != fsnap[n][2]):
+                            raise Viol('foreign.overwrite', f'{tag}:own_file_differs_from_fresh_creation:{os.path.basename(n)}', n)
+                    st['probes']['overwrite_result_equals_fresh_creation'] = 1
             # nothing outside the target may change
             d = snap_diff({k: v for k, v in pre.items() if not k.startswith('t.darr')},
                           {k: v for k, v in post.items() if not k.startswith('t.darr')})
